@@ -477,6 +477,13 @@ def compare(op, a, b):
             if _is_ground(a) and _is_ground(b):
                 r = a.key == b.key
                 return Const(r if op == "==" else not r)
+            for g_, t_ in ((a, b), (b, a)):
+                # a ground value compared with a choice between ground values is the choice's condition (or its negation, or a constant)
+                if _is_ground(g_) and isinstance(t_, App) and t_.fn == "ite" and len(t_.args) == 3 and _is_ground(t_.args[1]) and _is_ground(t_.args[2]):
+                    r1, r2 = (g_.key == t_.args[1].key) == (op == "=="), (g_.key == t_.args[2].key) == (op == "==")
+                    if r1 == r2:
+                        return Const(r1)
+                    return t_.args[0] if r1 else negate(t_.args[0])
             x, y = sorted((a, b), key=lambda v: v.key)
             r = App("eq", (x, y))
             return r if op == "==" else negate(r)
